@@ -5,6 +5,7 @@ from props import sess_common as sc
 
 PROP_FILES = ["Props/C11.v"]
 WRITE_OPS = ("write", "write_all", "write_pat")
+DATA_ONLY_OPS = WRITE_OPS + ("truncate", "read", "read_all", "seek", "extents")
 
 def embedded_configs():
     # (label, device bytes, format line): the device is larger than the volume; canary fill 0xD1 everywhere
@@ -50,6 +51,21 @@ def run(rep, tier, seed):
             s += ["open_dir 0 %s %d" % (sessions.hexs("/".join(pth)), h), "list %d" % h, "drop_dir %d" % h]
         s += ["drop_all", "unmount", "dump %d %d" % (vol_bytes, size - vol_bytes)]
         scripts.append(s); metas.append((conf, vol_bytes))
+    # FAT32 with mirroring switched off by another implementation (extended flags: bit 7 + the number of the active copy): table
+    # updates go to ONE copy - with the active copy 1 a write "to every copy" would land behind the last table, in the data area
+    for i in range(2 if tier == "quick" else 16):
+        label, size, fmt = confs[4]
+        toks = fmt.split()
+        g = sessions.Gen(rng, True, True); g.cluster = 512
+        while len(g.lines) < 30:
+            g.step()
+        # a first file of 137 clusters: later table updates concern entries >= 139, i.e. table offsets >= 556 - the same offsets
+        # behind the last table lie in clusters owned by that file, not in the root directory's cluster
+        s = ["dev %d 209" % size, "wlog 0", fmt, "poke 40 %02x00" % (0x80 | (1 - i % 2)), "pages", "wlog 1", "mount 1 0 lossy",
+             "create_file 0 %s 90" % sessions.hexs("big first.bin"), "write_pat 90 70000 9", "drop_file 90"] + g.lines
+        vol_bytes = int(toks[2]) * int(toks[1])
+        s += ["drop_all", "unmount", "dump %d %d" % (vol_bytes, size - vol_bytes)]
+        scripts.append(s); metas.append((confs[4], vol_bytes))
     for i in range(16 if tier == "quick" else 200):
         conf = confs[[0, 0, 3, 0][i % 4]] if tier == "quick" else confs[i % len(confs)]
         s = sessions.dir_heavy_session(rng, (conf[0], conf[1], conf[2]), nfiles=rng.range(8, 16))
@@ -102,6 +118,9 @@ def run(rep, tier, seed):
                 elif k1 in ("boot", "tail", "outside"):
                     bad = {"boot": "a reserved sector / boot code byte other than the status byte", "tail": "the slack after the last cluster",
                            "outside": "beyond the declared end of the volume"}[k1]
+                elif name in DATA_ONLY_OPS and (k1 == "root" or (k1 == "cl" and r1.split(":")[2] == "dir")):
+                    # File::write / truncate / read / seek change file data and the table only: the entry is written back by flush / drop
+                    bad = "a directory region (%s), although this call only transfers file data / updates the table" % r1
                 elif k1 == "cl":
                     _, c, okind, ofirst = r1.split(":")
                     if okind == "file":
